@@ -28,6 +28,11 @@ CHECKS.update({
          "TLC checks union/newest/no-regress/monotone/changed and commutativity/associativity/idempotence of membership on every reachable triple of views of the model (joins, restarts, fresh re-joins, status changes, increments, merges, all strategies and skew settings). The real merge is then run on every ordered pair of 250-700 well-formed views per option set (quick: ~1.1M merges) and TLC judges the laws on the implementation's own results, associativity on pairs x sampled third operands.",
          "Well-formed views are a superset of reachable ones; timestamps are ranks; 2-3 member ids.",
          "§5 C17"),
+ "C07": ("model_checking",
+         "TLA+ spec of Start/Stop/context-cancel at hook granularity (TLC: all interleavings of 1-3 callers, safety + liveness NeverHangs); TLC behaviours replayed on a real actor.System through hooks at the lock/kill/wait points; call/return traces and final observations validated by TLC against LifeMon",
+         "TLC explores every interleaving of the caller scripts, the guardian goroutine and the root's termination for five script families and checks start-once, stop-once, clean shutdown, lock release and (under fairness) that every call returns. Every behaviour of the small families and simulated behaviours of the larger ones are replayed step by step on a real system with a small actor tree (some with remoting); the monitor judges results against the state machine, hangs, registered actors and leftover library goroutines after Stop/cancel.",
+         "The actor tree of the scenarios terminates when poison-killed (C06); a call that does not reach its next hook within 4 s is a hang; goroutine attribution uses stack frames of the library and go-quartz.",
+         "§5 C07"),
 })
 
 NOT_YET = {
